@@ -365,3 +365,29 @@ def finish(ctx, level, obligations, coverage, assumptions, checker_cmd):
               % (ctx.pid, path, " no-failing-input-found" if no_input else ""))
     sys.stdout.flush()
     return 1 if ctx.violations else 0
+
+
+# ---------------------------------------------------------------- baseline implementation
+BASELINE = os.path.join(VERIF, "harness", "baseline")
+
+
+def baseline_run(modname, fname, jobs, timeout=1200):
+    """Evaluate worker jobs on the frozen baseline copy of parglare (pinned commit + fix
+    commits).  Only used to decide whether a failure observed on /repo is an instance of a
+    listed known finding.  Returns the list of results or None (fail closed: no suppression)."""
+    import pickle
+    env = dict(os.environ)
+    env["PYTHONPATH"] = BASELINE
+    env["PYTHONHASHSEED"] = "0"
+    try:
+        p = subprocess.run(["/venv/bin/python", os.path.join(VERIF, "harness", "run_worker.py"),
+                            modname, fname], input=pickle.dumps(jobs), stdout=subprocess.PIPE,
+                           stderr=subprocess.PIPE, env=env, timeout=timeout)
+        if p.returncode != 0:
+            return None
+        out = pickle.loads(p.stdout)
+        if not out["parglare_file"].startswith(BASELINE):
+            return None
+        return out["results"]
+    except Exception:
+        return None
